@@ -36,7 +36,8 @@ THEOREMS = ['begin_only_after_ok', 'begin_only_after_ok_of_current_mechanism', '
             'exhaustion_closes', 'unknown_line_closes', 'silent_after_close',
             'completes_against_spec_server', 'completes_against_spec_server_bytes', 'handlerWords_table',
             'own_bus_handshake_completes', 'own_bus_handshake_progress', 'own_bus_no_early_binary',
-            'own_bus_reachable_safe', 'own_bus_mechanism']
+            'own_bus_reachable_safe', 'own_bus_mechanism', 'own_bus_cookie_when_shared_keyring',
+            'own_bus_cookie_requires']
 TRUSTED_BASE = [
     'bytes.split/strip, binascii.hexlify/unhexlify, getattr dispatch on "_auth_"+cmd (mirrored by hand; validated by the streams)',
     'hashlib.sha1 (model: parameter; driver: Lean SHA-1 validated by the cookie streams), os.urandom, getpass, os.stat, open: explicit inputs',
@@ -1850,7 +1851,12 @@ def own_judge(ctx, world, r, m, stream='own-bus-handshake'):
                 ctx.violation('own-bus-begin-not-once', 'the client wrote BEGIN %d times' % r['begins'], inp=shown,
                               observed=impl, expected='exactly one BEGIN')
             want = own_expected_mechanism(spec, r['env'])
-            if mech != want:
+            order = list(world.preference)
+            ctx.stat('own:mechanism-%s' % ('as-expected' if mech == want else 'differs'))
+            # only the clear direction is a violation: a mechanism the client prefers was available to both sides,
+            # yet the handshake fell back to a later one (a better outcome than computed here is left to the
+            # comparison with the model)
+            if mech in order and want in order and order.index(mech) > order.index(want):
                 ctx.violation('own-bus-unexpected-mechanism',
                               'the handshake ends with mechanism %r; the environment (credentials %r, user %r, keyring of '
                               'the user %s, client home %s) allows %r, which the client prefers'
